@@ -517,7 +517,24 @@ def r14g(ctx, rep, rule="R14g", only=None, skip=("marwood::vm::builtin::string::
                 n += 1
                 nil_blocks = {bb3 for bb3, t3 in f.calls() if (callee(t3) or "").endswith("VCell::is_nil") and roots(f, t3["args"][0]) & cur}
                 # is_nil is a call terminator: the test has happened once its block was executed
-                reach = f.reach_from(not_pair, avoid=nil_blocks)
+                # knowledge about the cursor ends where the cursor is given a new value
+                cur_locals = {r[1] for r in cur if r[0] == "v"}
+                redefs = set()
+                for l in cur_locals:
+                    for d in f.defs().get(l, []):
+                        if d[2] != "partial" and d[0] != bb:
+                            # a definition takes effect at the end of its block: exploration may enter the block but not leave it
+                            redefs.add(d[0])
+                reach = set()
+                stack_ = [not_pair]
+                while stack_:
+                    b0 = stack_.pop()
+                    if b0 in reach or b0 in nil_blocks:
+                        continue
+                    reach.add(b0)
+                    if b0 in redefs:
+                        continue
+                    stack_.extend(f.succ[b0])
                 # leaving the loop is not required: `return Ok` inside the loop body on the not-pair edge counts too
                 oks = [bb3 for bb3 in reach if bb3 not in body or f.dominates(not_pair, bb3)
                        for st in f.blocks[bb3]["stmts"] if st["lhs"]["l"] == 0 and not st["lhs"]["p"] and st["rv"]["k"] == "agg"
@@ -542,5 +559,8 @@ def run(ctx, rep):
     r14e(ctx, rep)
     r14f(ctx, rep)
     r14g(ctx, rep)
+    from . import C06
+    C06.r06a_restricted(ctx, rep, "R14p", ["marwood::vm::builtin::vector::", "marwood::vm::builtin::list::", "marwood::vm::vector::", "marwood::vm::compare::"],
+                        "the list and vector procedures never abort", 20)
     rep.not_decided += ["that each procedure returns what R7RS specifies (value-level)",
                         "error-versus-wrong-answer for out-of-range indices", "equal?"]
